@@ -52,18 +52,49 @@ def run(ctx):
         raise AnalysisError(f'only {n_funcs} functions use the tag stack (>= 5 expected)')
     # the state object itself: new pushes one list, discard/pop remove exactly one
     ms = ctx.repo.class_methods('match', '_MatchState')
-    for name, frag in (('new_tagss', 'self.all_tagss.append('), ('discard_tagss', 'del self.all_tagss[-1]'),
-                       ('pop_merge_tagss', 'self.all_tagss.pop()')):
+    # the stack attribute is whatever new_tagss() appends to
+    def stack_ops(fn, attr):
+        push = sum(1 for x in ast.walk(fn) if isinstance(x, ast.Call) and call_name(x) == 'append' and isinstance(x.func.value, ast.Attribute)
+                   and x.func.value.attr == attr)
+        pop = sum(1 for x in ast.walk(fn) if isinstance(x, ast.Call) and call_name(x) == 'pop' and isinstance(x.func.value, ast.Attribute)
+                  and x.func.value.attr == attr and not x.args)
+        pop += sum(1 for x in ast.walk(fn) if isinstance(x, ast.Delete) and any(isinstance(t, ast.Subscript) and isinstance(t.value, ast.Attribute)
+                                                                                 and t.value.attr == attr for t in x.targets))
+        return push, pop
+    nt = ms.get('new_tagss')
+    if not nt:
+        raise AnalysisError('_MatchState.new_tagss not found')
+    attrs = [x.func.value.attr for x in ast.walk(nt[0].node) if isinstance(x, ast.Call) and call_name(x) == 'append' and isinstance(x.func.value, ast.Attribute)
+             and norm(x.func.value.value) == 'self']
+    if len(attrs) != 1:
+        raise AnalysisError('_MatchState.new_tagss: the tag stack attribute could not be identified')
+    stack_attr = attrs[0]
+    for name, want in (('new_tagss', (1, 0)), ('discard_tagss', (0, 1)), ('pop_merge_tagss', (0, 1))):
         fis = ms.get(name)
         if not fis:
             raise AnalysisError(f'_MatchState.{name} not found')
-        txt = norm(ast.unparse(fis[0].node), 100000)
-        ctx.check('R17.1', txt.count(frag) == 1, 'match', f'_MatchState.{name}', frag,
-                  f'_MatchState.{name} must change the stack depth by exactly one (`{frag}` once)', fis[0].lineno)
+        got = stack_ops(fis[0].node, stack_attr)
+        ctx.check('R17.1', got == want, 'match', f'_MatchState.{name}', f'stack ops on self.{stack_attr}: push/pop = {got}',
+                  f'_MatchState.{name} must change the stack depth by exactly one (push, pop) = {want}', fis[0].lineno)
+    # clear() resets every mutable container the constructor creates
+    init = ms.get('__init__')
     clr = ms.get('clear')
-    txt = norm(ast.unparse(clr[0].node), 100000) if clr else ''
-    ctx.check('R17.1', 'self.all_tagss.clear()' in txt and 'self.cache.clear()' in txt, 'match', '_MatchState.clear',
-              'clears all_tagss and cache', 'clear() must drop both the tag stack and the per-match cache', clr[0].lineno if clr else 0)
+    containers = set()
+    if init:
+        for x in ast.walk(init[0].node):
+            if isinstance(x, ast.Assign) and isinstance(x.targets[0], ast.Attribute) and norm(x.targets[0].value) == 'self' and \
+                    isinstance(x.value, (ast.List, ast.Dict, ast.Set)):
+                containers.add(x.targets[0].attr)
+    cleared = set()
+    if clr:
+        for x in ast.walk(clr[0].node):
+            if isinstance(x, ast.Call) and call_name(x) == 'clear' and isinstance(x.func.value, ast.Attribute) and norm(x.func.value.value) == 'self':
+                cleared.add(x.func.value.attr)
+            if isinstance(x, ast.Assign) and isinstance(x.targets[0], ast.Attribute) and norm(x.targets[0].value) == 'self':
+                cleared.add(x.targets[0].attr)
+    ctx.check('R17.1', bool(containers) and containers <= cleared, 'match', '_MatchState.clear',
+              f'clears {sorted(containers)}', f'clear() must reset every container the state holds; not reset: {sorted(containers - cleared)}',
+              clr[0].lineno if clr else 0)
 
     # ---- R17.2 ----------------------------------------------------------------------------------------------------------
     check_shared(ctx, m)
@@ -362,9 +393,20 @@ def check_registries(ctx, m):
                   'match', '_LEAF_ASTS_FUNCS', f'{nm} combinator', f'combinator {nm} must pre-filter through its own _leaf_asts')
     # search() must use the same table for its walk filter and fall back to "all" on None
     s = ctx.repo.funcs('match', 'search')[0]
-    txt = norm(ast.unparse(s.node), 200000)
-    ctx.check('R17.4', '_LEAF_ASTS_FUNCS.get(pat_cls, _leaf_asts_default)(pat)' in txt and 'if walk_all is None or' in txt and 'walk_all = True' in txt,
-              'match', 'search', 'walk_all = _LEAF_ASTS_FUNCS.get(...)(pat); None -> True',
+    # structural: <W> = _LEAF_ASTS_FUNCS.get(<cls>, <default>)(pat); an `if <W> is None ...:` arm rebinds <W> = True
+    wname = None
+    for x in walk_no_nested(s.node):
+        if isinstance(x, ast.Assign) and isinstance(x.targets[0], ast.Name) and isinstance(x.value, ast.Call) and isinstance(x.value.func, ast.Call) and \
+                isinstance(x.value.func.func, ast.Attribute) and x.value.func.func.attr == 'get' and norm(x.value.func.func.value) == '_LEAF_ASTS_FUNCS':
+            wname = x.targets[0].id
+    fallback = False
+    if wname:
+        for x in walk_no_nested(s.node):
+            if isinstance(x, ast.If) and any(isinstance(c, ast.Compare) and norm(c.left) == wname and isinstance(c.ops[0], ast.Is) and
+                                              isinstance(c.comparators[0], ast.Constant) and c.comparators[0].value is None for c in ast.walk(x.test)):
+                fallback = any(isinstance(b, ast.Assign) and norm(b.targets[0]) == wname and isinstance(b.value, ast.Constant) and b.value.value is True
+                               for b in x.body)
+    ctx.check('R17.4', bool(wname) and fallback, 'match', 'search', 'walk filter = _LEAF_ASTS_FUNCS.get(...)(pat); None -> True',
               'search() must derive its walk filter from _LEAF_ASTS_FUNCS and treat an indeterminate (None) filter as "all nodes"', s.lineno)
 
 
